@@ -163,3 +163,55 @@ def open_hyperv(files, opaque, p):
     from dissect.hypervisor.descriptor.hyperv import HyperVFile
 
     return HyperVFile(files["img"])
+
+
+class _StreamProbe:
+    """Concrete check of one AlignedStream operation over a back-end that returns exactly the guest bytes."""
+
+    def __init__(self, p):
+        self.p = p
+
+    def stream_step(self):
+        from dissect.util.stream import AlignedStream
+
+        p = self.p
+        size, align = p["size"], p["align"]
+
+        def guest(a, n):
+            return bytes(((x * 131) ^ (x >> 7)) & 0xFF for x in range(a, a + n))
+
+        class S(AlignedStream):
+            def _read(self, offset, length):
+                if offset % align or length % align or length <= 0 or offset >= size:
+                    raise AssertionError(f"back-end called outside its contract: {offset}, {length}")
+                return guest(offset, max(min(length, size - offset), 0))
+
+        if size > 1 << 24:
+            raise MemoryError("replay too large")
+        s = S(size, align)
+        s.seek(p["pos"])
+        op = p["op"]
+        pos = p["pos"]
+        if op in ("read", "peek"):
+            n = p["n"]
+            rem = max(size - pos, 0)
+            exp = guest(pos, rem if n == -1 else min(n, rem))
+            got = s.read(n) if op == "read" else s.peek(n)
+            assert got == exp, "wrong bytes"
+            assert s.tell() == (pos + len(exp) if op == "read" else pos), "wrong position"
+        elif op == "readoffset":
+            off, n = p["offset"], p["n"]
+            rem = max(size - off, 0)
+            exp = guest(off, rem if n == -1 else min(n, rem))
+            assert s.readoffset(off, n) == exp, "wrong bytes"
+        else:
+            wh = int(op[4:])
+            base = {0: 0, 1: pos, 2: size}[wh]
+            exp = max(0, base + p["arg"]) if wh else p["arg"]
+            assert s.seek(p["arg"], wh) == exp and s.tell() == exp, "wrong position"
+        return b""
+
+
+@register("aligned_stream")
+def open_aligned_stream(files, opaque, p):
+    return _StreamProbe(p)
